@@ -409,6 +409,10 @@ func (w *World) mapKeys(k, v Sort) (dom, val string) {
 func (w *World) globalKey(g *ssa.Global) string {
 	key := "Glob!" + g.Pkg.Pkg.Name() + "." + g.Name()
 	w.heapSort[key] = w.sortOf(g.Type().(*types.Pointer).Elem())
+	switch g.Type().(*types.Pointer).Elem().Underlying().(type) {
+	case *types.Pointer, *types.Map:
+		w.heapRef[key] = true
+	}
 	return key
 }
 
@@ -487,6 +491,10 @@ func (w *World) freshHeap(key string, alloc Term) Term {
 func (w *World) heapTypeInv(key string, arr Term, alloc Term) {
 	idx, el, ok := arrayParts(arr.Sort)
 	if !ok {
+		// a package-level variable holding a pointer or a map: it refers to an allocated object
+		if arr.Sort == SInt && w.heapRef[key] && strings.HasPrefix(key, "Glob!") {
+			w.sc.raw(fmt.Sprintf("(assert (and (<= 0 %s) (<= %s %s)))", arr.S, arr.S, alloc.S))
+		}
 		return
 	}
 	x := fmt.Sprintf("(select %s ti!)", arr.S)
